@@ -243,13 +243,7 @@ func (x *c19ctx) probeRoot(L *c19Launch, addr string) c19Obs {
 	if seen == "" {
 		seen = "none"
 	}
-	o := c19Obs{state: "root-sees:" + seen}
-	// extra information for the report: does the server resolve paths against the filesystem root?
-	abs := filepath.Join(x.rootA, "markerA.txt")
-	if r, st, _ := c19Stat(c, abs, 10*time.Second); st == wire.Full && r.Size != -1 {
-		o.note = "STAT " + abs + " succeeds: the served root is the filesystem root"
-	}
-	return o
+	return c19Obs{state: "root-sees:" + seen}
 }
 
 func (x *c19ctx) probeListen(L *c19Launch) c19Obs {
@@ -574,10 +568,21 @@ func (x *c19ctx) observe(s *c19Setting, assigns []c19Assign, expect string, atte
 	return o, L
 }
 
+// c19Short replaces the per-run scratch prefix so that texts are stable between runs.
+func c19Short(v string) string {
+	if i := strings.Index(v, "/c19/shared/"); i >= 0 {
+		return "<scratch>/" + v[i+len("/c19/shared/"):]
+	}
+	return v
+}
+
 func c19Desc(s *c19Setting, assigns []c19Assign) string {
+	if len(assigns) == 0 {
+		return s.name + " absent"
+	}
 	var parts []string
 	for _, a := range assigns {
-		parts = append(parts, fmt.Sprintf("%s:%s=%s", a.Ch, s.name, a.Val))
+		parts = append(parts, fmt.Sprintf("%s:%s=%s", a.Ch, s.name, c19Short(a.Val)))
 	}
 	return strings.Join(parts, " + ")
 }
@@ -652,7 +657,7 @@ func (x *c19ctx) recorded(s *c19Setting, ch1, ch2 string) {
 		out = ch2 + " wins"
 	}
 	x.mu.Lock()
-	x.pairs[fmt.Sprintf("%s: %s=%s vs %s=%s", s.name, ch1, s.prim.val, ch2, s.alt.val)] = out
+	x.pairs[fmt.Sprintf("%s: %s=%s vs %s=%s", s.name, ch1, c19Short(s.prim.val), ch2, c19Short(s.alt.val))] = out
 	x.mu.Unlock()
 	x.e.Run.Count("nonflag_conflicts_recorded", 1)
 }
@@ -788,7 +793,7 @@ func C19(e *Env) {
 		nFlagVs++
 		cases = append(cases, func() {
 			if x.judged(s, []c19Assign{{c19Flag, fv.val}, {ch, ov.val}}, fv.state, "flag-loses", s.name+"/flag-vs-"+ch, "flag-vs-"+ch) {
-				run.Sig("%s flag=%s vs %s=%s -> flag value in force%s", s.name, fv.val, ch, ov.val, dir)
+				run.Sig("%s flag=%s vs %s=%s -> flag value in force%s", s.name, c19Short(fv.val), ch, c19Short(ov.val), dir)
 				flagWins.Add(1)
 			}
 		})
